@@ -473,7 +473,7 @@ class Interp:
                 return r.value
             return VOID
         finally:
-            ctx.frames.pop()
+            ctx.last_frame = ctx.frames.pop()
 
     def stmt(self, n):
         k = n["kind"]
@@ -1292,6 +1292,11 @@ class Interp:
             if isinstance(v, Opt):
                 ctx.oblige("optional-engaged@%s" % extract.line_of(n), v.has, kind="optional", line=extract.line_of(n))
                 return v.value
+            if isinstance(v, Ptr):  # smart pointers are modelled as pointers
+                ctx.oblige("nonnull@%s" % extract.line_of(n), z3.Not(v.null), kind="null-deref", line=extract.line_of(n))
+                if v.target is None:
+                    raise PathEnd()
+                return v.target
             raise Gap("operator* on %r" % (v,))
         if op == "<=>" and len(vals) == 2:
             return ("cmp3", vals[0], vals[1])
